@@ -15,7 +15,7 @@
    finding F-C18-animate-in-loop-never-ticked). *)
 From Coq Require Import ZArith List Bool.
 From RV Require Import Host.LCDAnim Device.DLCDAnim Proofs.LCDAnimP Proofs.LCDAnimP2.
-From RV Require Import Gen.LcdAnimTables Proofs.LCDAnimG.
+From RV Require Import Gen.LcdAnimTables Proofs.LCDAnimG Proofs.LCDAnimP3.
 Import ListNotations.
 Open Scope Z_scope.
 
@@ -259,6 +259,35 @@ Theorem C18_host_run_events :
   Forall (fun x => hno_delay (snd x) /\ hin_row cols (h_row st) (snd x)) tr.
 Proof. exact hsteps_events. Qed.
 Print Assumptions C18_host_run_events.
+
+(* ================================================================== host vs device (beyond the statement) *)
+
+(* The property lets host and device differ in their frames.  Their state machines nevertheless take
+   their steps at the same ticks: for every style, every schedule of non-negative times, speed_ms >= 0,
+   and - for scroll - a text at least as wide as the row, the step flags coincide tick by tick and the
+   final active / offset / last-step fields agree. *)
+Theorem C18_host_device_same_schedule :
+  forall (sty : style) (cols rows row : Z) (text : list Z) (speed : Z) (lp : bool) (nows : list Z)
+         (stn : hstate) (tr : list (Z * bool * list hev)),
+  1 <= cols -> 0 <= speed -> Forall (fun t => 0 <= t) nows -> (sty = Scroll -> cols <= zlen text) ->
+  hsteps cols rows (hstart sty row text speed lp) nows stn tr ->
+  let r := drun1 sty cols (fst (dstart sty cols row text speed lp)) nows in
+  map (fun x => snd (fst x)) tr = map (fun x => snd (fst x)) (snd r) /\
+  h_active stn = d_active (fst r) /\ h_offset stn = d_offset (fst r) /\ h_last stn = d_last (fst r).
+Proof. exact host_device_agree. Qed.
+Print Assumptions C18_host_device_same_schedule.
+
+(* the only difference in the number of steps: the device pads a short scroll text to the row width *)
+Theorem C18_steps_total_host_vs_device :
+  forall (sty : style) (cols : Z) (text : list Z),
+  dsteps_total sty cols text =
+  hsteps_total sty cols text + match sty with Scroll => Z.max 0 (cols - zlen text) | _ => 0 end.
+Proof. exact steps_total_host_vs_device. Qed.
+Print Assumptions C18_steps_total_host_vs_device.
+
+Example C18_ex_scroll_differs : hsteps_total Scroll 3 [65] = 4 /\ dsteps_total Scroll 3 [65] = 6.
+Proof. exact host_device_scroll_differs. Qed.
+Print Assumptions C18_ex_scroll_differs.
 
 (* ================================================================== tables re-read from /repo *)
 
